@@ -316,8 +316,18 @@ def write_value_alternatives(prog, op, ns):
             return None
     first = None
     asm = op.get("assumptions", ())
+    def settle_agg(f_):
+        # a fresh aggregate whose fields are components of a helper's result (`IBCTransfer { status, ..lookup(..)?.0 }`):
+        # the same aggregate with those components spelled out, so that struct-update syntax is recognised
+        if f_[0] == "agg" and f_[3] and not f_[1].startswith(("std::", "core::", "alloc::")):
+            g_ = ("agg", f_[1], f_[2], tuple((k_, n_, _head_resolved(prog, v_, asm)) for k_, n_, v_ in f_[3]))
+            return g_
+        if f_[0] == "phi":
+            return ("phi", tuple(settle_agg(a_) for a_ in f_[1]))
+        return f_
+
     for f in forms(prog, v, 2, asm):
-        alts = [(base, _drop_identity(base, {p_: _head_resolved(prog, x_, asm) for p_, x_ in d.items()})) for base, d in struct_deltas(f)]
+        alts = [(base, _drop_identity(base, {p_: _head_resolved(prog, x_, asm) for p_, x_ in d.items()})) for base, d in struct_deltas(settle_agg(f))]
         if first is None:
             first = alts
         if all(base[0] == "agg" or _loadish(base) for base, _ in alts):
@@ -335,9 +345,7 @@ def _head_resolved(prog, v, assumptions=()):
         if x[0] != "field":
             return False
         y = x
-        while y[0] == "field":
-            y = y[1]
-        while y[0] in ("payload", "trybranch"):
+        while y[0] in ("field", "variant", "payload", "trybranch"):
             y = y[1]
         return y[0] == "call" and _body_of_call(prog, y) is not None
 
